@@ -197,7 +197,7 @@ func simC14pcap(c *sim.Ctx) {
 				if !eofClass(err) {
 					c.Fail(what, "wrong-error", "Reader", "after %d packets of prefix %d: error %v is neither EOF nor unexpected EOF", i, upto, err)
 				}
-				if upto == len(file) && err != io.EOF && strict {
+				if upto == len(file) && !errors.Is(err, io.EOF) && strict {
 					c.Fail(what, "wrong-error", "Reader", "complete file ends with %v, not io.EOF", err)
 				}
 				return
@@ -582,7 +582,7 @@ func simC14ng(c *sim.Ctx) {
 				if !eofClass(err) {
 					c.Fail(what, "wrong-error", "NgReader", "after %d packets of prefix %d: error %v is neither EOF nor unexpected EOF", i, upto, err)
 				}
-				if upto == len(file) && err != io.EOF {
+				if upto == len(file) && !errors.Is(err, io.EOF) {
 					c.Fail(what, "wrong-error", "NgReader", "complete file ends with %v, not io.EOF", err)
 				}
 				break
